@@ -11,6 +11,7 @@ import (
 	"net/http/httptest"
 	"os"
 	"os/exec"
+	"runtime/debug"
 	"strings"
 	"sync"
 	"time"
@@ -93,7 +94,7 @@ func main() {
 			}
 			for _, ops := range seqs[lo:hi] {
 				var keys []string
-				cl, what := runHistory(s, rs, ops, &keys)
+				cl, what := runHistorySafe(s, rs, ops, &keys)
 				trans += int64(len(ops))
 				for _, k := range keys {
 					local[k] = true
@@ -144,6 +145,9 @@ func main() {
 				} else if strings.Contains(txt, "RACEPASS-MISMATCH") {
 					i := strings.Index(txt, "RACEPASS-MISMATCH")
 					r.Fail("interference-free-running", firstLines(txt[i:], 6), map[string]any{"kind": "racepass", "gomaxprocs": procs})
+				} else if i := strings.Index(txt, "panic: "); i >= 0 && strings.Contains(txt, "github.com/go-openapi/runtime") {
+					// the code under test panicked while serving free-running requests
+					r.Fail("panic-free-running", firstLines(txt[i:], 14), map[string]any{"kind": "racepass", "gomaxprocs": procs})
 				} else if err != nil {
 					fmt.Fprintf(os.Stderr, "internal error: race pass failed: %v\n%s\n", err, txt)
 					os.Exit(2)
@@ -321,4 +325,15 @@ func racePass() {
 		}
 	}
 	fmt.Println("racepass done")
+}
+
+// runHistorySafe: a panic of the code under test inside a history is a finding about that history, not
+// a reason for the run to die without a verdict.
+func runHistorySafe(s *site, rs reqSpec, ops []int, keys *[]string) (cl, what string) {
+	defer func() {
+		if e := recover(); e != nil {
+			cl, what = "history/panic", fmt.Sprintf("%v panics on request %s: %v | %s", names(ops), rs.Name, e, firstLines(string(debug.Stack()), 14))
+		}
+	}()
+	return runHistory(s, rs, ops, keys)
 }
